@@ -47,6 +47,13 @@ func init() {
 		},
 		"vTier": func(fr *frame, args []value) value { return Tier },
 		"vBudgetOK": func(fr *frame, args []value) value { fr.i.path.budgetOK = true; return nil },
+		// vBudgetFails(label): from here on, running out of the step budget on
+		// this path is a violation with that label (the program under test is
+		// known to need only a bounded number of steps); "" switches it off.
+		"vBudgetFails": func(fr *frame, args []value) value {
+			fr.i.path.budgetFails = argName(fr, args[0])
+			return nil
+		},
 		"vHavoc": vHavocIntrinsic,
 		"vPickString": vPickStringIntrinsic,
 		"vSetupOnce": vSetupOnceIntrinsic,
